@@ -197,7 +197,7 @@ def run(ctx):
         for l, g, m, ks in zip(gl, go, mo, kinds):
             name = l.split(" ")[1]
             if not g.startswith("ok ") or not m.startswith("ok "):
-                ubad.append((u.name, l, g, f"C09:crash:{u.name}:{name}", "history crashed the implementation")) if not g.startswith("ok ") else umism.append((u.name, l, m, g))
+                ubad.append((u.name, l, g, f"C09:{'stack-overflow' if 'goroutine stack exceeds' in g else 'crash'}:{u.name}:{name}", "history crashed the implementation")) if not g.startswith("ok ") else umism.append((u.name, l, m, g))
                 continue
             ge = [e.split(",") for e in g[3:].split(" ; ")]
             me = [e.split(",") for e in m[3:].split(" ; ")]
